@@ -5,6 +5,8 @@ import (
 	"math/big"
 	"math/rand"
 	"runtime"
+	"sync"
+	"sync/atomic"
 
 	"github.com/crate-crypto/go-ipa/bandersnatch"
 	"github.com/crate-crypto/go-ipa/bandersnatch/fr"
@@ -279,6 +281,9 @@ func c09run(c *mon.Ctx, pool *c09pool, cs c09case, rng *rand.Rand) {
 				pts[i] = ElemFromRef(ref.Identity(), big.NewInt(int64(2+i)), i%2 == 0)
 			}
 		}
+		if cs.n >= 2 && cs.variant%5 == 3 {
+			relateZ(pts, rng) // the Z coordinates of the list multiply to one although they are not all one
+		}
 		snapP := append([]banderwagon.Element(nil), pts...)
 		var res banderwagon.Element
 		if cs.n == 0 && cs.variant%2 == 1 {
@@ -552,6 +557,62 @@ func c09reuse(c *mon.Ctx, pool *c09pool, n int, rng *rand.Rand) {
 	c.Count("msm_on_reused_slices", 5)
 }
 
+// c09concurrent: many callers at once (more than four per CPU), every call large enough and with enough tasks to be
+// split. Every call must return (bounded progress) with the right sum; the calls share nothing but the package.
+func c09concurrent(c *mon.Ctx, pool *c09pool, rng *rand.Rand) {
+	G := 4*runtime.NumCPU() + 8
+	const n = 600
+	type job struct {
+		pts  []banderwagon.Element
+		ls   []fr.Element
+		want ref.Point
+		got  banderwagon.Element
+		err  error
+	}
+	jobs := make([]*job, G)
+	for g := range jobs {
+		j := &job{pts: make([]banderwagon.Element, n), ls: make([]fr.Element, n)}
+		sum := new(big.Int)
+		for i := 0; i < n; i++ {
+			k := rng.Intn(len(pool.el))
+			j.pts[i] = pool.el[k]
+			s := big.NewInt(int64(1 + rng.Intn(1<<30)))
+			if i%3 == 0 {
+				s = randScalar(rng)
+			}
+			j.ls[i] = FrFromBig(s)
+			sum.Add(sum, new(big.Int).Mul(s, pool.k[k]))
+		}
+		j.want = ref.Mul(ref.Generator(), sum.Mod(sum, ref.R))
+		jobs[g] = j
+	}
+	var wg sync.WaitGroup
+	var ready int32
+	for g := range jobs {
+		j := jobs[g]
+		tasks := []int{128, 64, 256}[g%3]
+		wg.Add(1)
+		go func() {
+			defer wg.Done()
+			atomic.AddInt32(&ready, 1)
+			for atomic.LoadInt32(&ready) < int32(G) {
+				runtime.Gosched()
+			}
+			_, j.err = j.got.MultiExp(j.pts, j.ls, banderwagon.MultiExpConfig{NbTasks: tasks, ScalarsMont: true})
+		}()
+	}
+	wg.Wait()
+	for g, j := range jobs {
+		got, ok := ElemToRef(&j.got)
+		if j.err != nil || !ok || !ref.ClassEqual(got, j.want) {
+			c.Fail("msm-wrong-sum/concurrent-callers", fmt.Sprintf("Element.MultiExp (n=%d) returned a wrong sum or an error (%v) in caller %d of %d simultaneous callers", n, j.err, g, G), nil)
+			break
+		}
+	}
+	c.Count("concurrent_callers", int64(G))
+	c.Eval(fmt.Sprintf("concurrent-callers|G=%d|ncpu=%d", G, runtime.NumCPU()), true)
+}
+
 func runC09(c *mon.Ctx) {
 	mode := 0
 	fmt.Sscan(c.Config["sched"], &mode)
@@ -642,6 +703,12 @@ func runC09(c *mon.Ctx) {
 			}
 		}
 	}
+	c.Case("concurrent-callers", func() {
+		rng := c.Rand("concurrent-callers")
+		for k := 0; k < c.Pick(2, 10); k++ {
+			c09concurrent(c, pool, rng)
+		}
+	})
 	for i, n := range []int{3, 4, 9, 33, 128, 300, 1025} {
 		if !c.Mine(i) {
 			continue
